@@ -924,6 +924,21 @@ class Executor:
             vs = self.types.enum_variants(ety, self.hint_mod)
             if vs is not None and any(n == segs[-1] for n, _ in vs):
                 return [(st, Outcome("ret", self.mk_enum(ety, segs[-1], list(args))))]
+        # last resort for std / core / alloc functions that no model covers: an arbitrary result of the declared type,
+        # and every `&mut` argument's target havocked.  Over-approximates (sound for proving; a spurious counterexample
+        # cannot reproduce natively and ends as inconclusive).  Every use is recorded in the evidence.
+        if STD_ANY.search(callee):
+            self.stats.setdefault("std_fallback", {})
+            self.stats["std_fallback"][callee[:120]] = self.stats["std_fallback"].get(callee[:120], 0) + 1
+            n = next(self.counter)
+            for a in args:
+                if isinstance(a, Ref) and a.ty.startswith("&mut"):
+                    try:
+                        old_v = self.read(st, a.cell, a.path)
+                        self.write(st, a.cell, a.path, self.fresh(getattr(old_v, "ty", "?"), f"havoc{n}[{callee.split('::')[-1]}]"))
+                    except Unencodable:
+                        pass
+            return [(st, Outcome("ret", self.fresh(dest_ty, f"{callee.split('::')[-1]}#{n}({','.join(self.val_name(st, a)[:40] for a in args)})")))]
         raise Unencodable(f"unknown callee {callee!r} (called from {frame.fn.name})")
 
     def val_name(self, st, v):
@@ -1019,6 +1034,8 @@ class Executor:
 
 
 FMOD = z3.Function("fmod", F64, F64, F64)
+STD_ANY = re.compile(r"^(std|core|alloc)::|^<[^>]* as (std|core|alloc)::|^(Vec|String|Option|Result|Box|BTreeMap|BTreeSet|HashMap|HashSet|VecDeque|Rc|Arc|Cow)::<|^(String|str)::\w+$"
+                     r"|^<(Vec|String|Box|BTreeMap|BTreeSet|HashMap|VecDeque|std::|core::|alloc::)[^>]* as \w+(<.*>)?>::\w+$|^<(str|\[.*\]|&str|&\[.*\]) as \w+(<.*>)?>::\w+$")
 STD_OBSERVER = re.compile(r"^(std::|core::|alloc::)?(vec::)?(Vec|String|BTreeMap|HashMap|VecDeque|Option|str)(::<.*>)?::(is_empty|len|is_none|is_some|contains|contains_key|first|last|as_str|as_bytes|capacity)$"
                           r"|<impl (str|\[.*\])>::(is_empty|len|contains|starts_with|ends_with)(::<.*>)?$")
 
